@@ -12,6 +12,25 @@ TEXTS = {
                 "Parser and wrapper are universally quantified, not modelled. Trusted: Lean kernel, translator, harness.",
         "technique": "Lean 4 proof over executable model + differential correspondence + per-case contract evaluation",
     },
+    "C04": {
+        "text": "Totality of every model function plus Lean theorems for linear pass count and reference validity of the line builder; "
+                "for the unmodelled control flow (parser, wrapper search) a monitor: catch_unwind + hang detector per case on a debug "
+                "build, deterministic work counters against linear bounds, enumeration of all token sequences up to length 3 "
+                "(thorough). Partial by nature: termination of the parser's and the search's own loops is observed, not proved.",
+        "design_ref": "DESIGN.md section 5 (C04)",
+        "note": "Known findings F2 (stack depth), F3/F18 (cursor arithmetic). Four defects found by this check were repaired by fix: "
+                "commits (see known_findings.json).",
+        "technique": "Lean 4 totality/bound theorems + run-time monitor (watchdog, catch_unwind, counters)",
+    },
+    "C14": {
+        "text": "Lean theorems quantified over every operation trace of the line-building primitives (ordering, disjointness, coverage "
+                "of the pass), consolidation, directive lines, single pass without conditionals. Exact models replayed against the "
+                "real parser's hook trace and output on every case; direct C14 oracle on the parser output.",
+        "design_ref": "DESIGN.md section 5 (C14)",
+        "note": "Which primitive is called when is the parser's grammar knowledge: universally quantified in the theorems, taken from "
+                "the hook trace in the correspondence. Trusted: Lean kernel, translator, harness, hook patch, model.",
+        "technique": "Lean 4 proof over executable state machine + trace replay correspondence + direct oracle",
+    },
     "C07": {
         "text": "Lean theorem verbatim_emitted: the reconstructor model emits every run of ignored tokens byte for byte for every counter "
                 "assignment (under a decidable no-safety-net side condition, tallied per case); ignored tokens cannot be rewritten. The "
